@@ -23,6 +23,8 @@ def queries(tier):
         for mode in (0, 1):
             for m in range(0, sz):
                 if tier == 'quick' and not (m in (0, 7, 8, 11, 12, 16, 23, 24, sz - 1)): continue
+                if tier == 'quick' and mode == 1 and m not in (7, 8, 16, sz - 1): continue
+                if tier == 'thorough' and mode == 1 and m % 2 == 1 and m != sz - 1: continue
                 if tier == 'quick' and (kind, n, est) in ((1, 0, 0), (2, 0, 0), (4, 2, 0), (3, 1, 0)) and m not in (7, sz - 1): continue
                 qs.append(Q(f'theta_v{kind}_n{n}_e{est}_mode{mode}_trunc{m:02d}', 'theta_serde', 'c11_theta.c',
                             defs={'KIND': kind, 'N': n, 'EST': est, 'M': m, 'MODE': mode, 'CORRUPT': -1}, unwind=6,
@@ -30,7 +32,7 @@ def queries(tier):
                             c_defs={'VERIF_NEW_CAPN': 8}, mem_gb=20))
             npre = min(sz, 24)
             for p in range(0, npre):
-                if tier == 'quick': continue    # corruption queries fan out over all readers (200-600 s each): thorough tier
+                if tier == 'quick' or mode == 1 or p >= 8 or (kind, n, est) not in ((3, 2, 0), (4, 2, 1), (2, 2, 0)): continue    # corruption queries fan out over all readers (200-600 s each): thorough tier, three shapes, the 8 preamble bytes
                 qs.append(Q(f'theta_v{kind}_n{n}_e{est}_mode{mode}_corrupt{p:02d}', 'theta_serde', 'c11_theta.c',
                             defs={'KIND': kind, 'N': n, 'EST': est, 'M': 0, 'MODE': mode, 'CORRUPT': p}, unwind=6,
                             unwindset={'^(harness|put64|put32|w_cts_serialize|w_cts_make|verif_mem.*|verif_new.*)$': 70}, timeout=1500, native_vectors=50,
@@ -45,7 +47,7 @@ def queries(tier):
     # HLL_4 images (lg_k 4, HLL mode, one aux exception): compact (52 bytes) and updatable (64 bytes)
     for (kind, size) in ((0, 52), (1, 64)):
         for m in range(0, size + 1):
-            if tier == 'quick' and not (m % 8 == 0 or m >= size - 5 or m in (39, 41, 47, 49)): continue
+            if tier == 'quick': continue    # HLL images: thorough only (each query 300+ s)
             qs.append(Q(f'hll4_kind{kind}_trunc{m:03d}', 'serde_hll', 'c11_hll.c', defs={'KIND': kind, 'SIZE': size, 'M': m}, tu_defs={'__OPT': '-O1 -fno-inline-functions -fno-inline -fno-pic'}, unwind=20,
                         unwindset={'^harness$': 140, '^(verif_mem.*|verif_new.*|fnv.*|emit.*)$': 140, '^_ZN.*AuxHashMap': 7}, timeout=(300 if tier == 'quick' else 1200), native_vectors=50,
                         c_defs={'VERIF_NEW_CAPN': 70, 'VERIF_VEC_CAP': 8, 'VERIF_CUT_HLL4_SHIFT': None, 'VERIF_SKIP_HLL_KXQ': None, 'VERIF_CUT_HLL_AUX_GROW': None}, slice_formula=True, mem_gb=16))
